@@ -5,7 +5,39 @@ package diffdb
 import (
 	"bytes"
 	"sync"
+	"time"
+
+	"github.com/LiskHQ/lisk-engine/pkg/db"
 )
+
+// zz20SlowStore: natively the FIRST store read takes 40 ms (the reader's cache miss), which makes the
+// native schedule the critical one: the writers (who start 10 ms later) run while the reader is between
+// its cache miss and its cache fill. Under the engine every interleaving is explored instead.
+type zz20SlowStore struct {
+	s      *zzModelStore
+	native bool
+	mu     sync.Mutex
+	calls  int
+}
+
+func (w *zz20SlowStore) Get(key []byte) ([]byte, bool) {
+	if w.native {
+		w.mu.Lock()
+		w.calls++
+		first := w.calls == 1
+		w.mu.Unlock()
+		if first {
+			time.Sleep(40 * time.Millisecond)
+		}
+	}
+	return w.s.Get(key)
+}
+func (w *zz20SlowStore) Iterate(prefix []byte, limit int, reverse bool) []db.KeyValue {
+	return w.s.Iterate(prefix, limit, reverse)
+}
+func (w *zz20SlowStore) IterateRange(start, end []byte, limit int, reverse bool) []db.KeyValue {
+	return w.s.IterateRange(start, end, limit, reverse)
+}
 
 // C20.d: the staged store shared through prefix views. Two module goroutines write and read through
 // two views derived from one Database (they share the overlay and its mutex) while the owner takes a
@@ -19,7 +51,7 @@ import (
 func zzH_C20_diffdb_views_concurrent(t *zzT) {
 	store := &zzModelStore{}
 	store.e = append(store.e, zzEntry{[]byte{1, 7}, []byte{0x11}}, zzEntry{[]byte{2, 7}, []byte{0x22}})
-	root := New(store, []byte{})
+	root := New(&zz20SlowStore{s: store, native: !t.Symbolic()}, []byte{})
 	va, vb := root.WithPrefix([]byte{1}), root.WithPrefix([]byte{2})
 	wa, wb := t.U8("write.a"), t.U8("write.b")
 	delB := t.Bool("b deletes instead")
@@ -29,11 +61,17 @@ func zzH_C20_diffdb_views_concurrent(t *zzT) {
 	var okA, okB bool
 	go func() {
 		defer wg.Done()
+		if !t.Symbolic() {
+			time.Sleep(10 * time.Millisecond)
+		}
 		va.Set([]byte{7}, []byte{wa})
 		gotA, okA = va.Get([]byte{7})
 	}()
 	go func() {
 		defer wg.Done()
+		if !t.Symbolic() {
+			time.Sleep(10 * time.Millisecond)
+		}
 		if delB {
 			vb.Del([]byte{7})
 		} else {
@@ -41,8 +79,20 @@ func zzH_C20_diffdb_views_concurrent(t *zzT) {
 		}
 		gotB, okB = vb.Get([]byte{7})
 	}()
+	// a third party reads the SAME keys through the root while the writers are at work: a read that
+	// fills the cache from the store must not overwrite a write that completed meanwhile
+	wg.Add(1)
+	go func() {
+		defer wg.Done()
+		_, _ = root.Get([]byte{1, 7})
+		_, _ = root.Get([]byte{2, 7})
+	}()
 	id := root.Snapshot()
 	wg.Wait()
+	fa, faok := va.Get([]byte{7})
+	t.Assert(faok && bytes.Equal(fa, []byte{wa}), "a completed write is not undone by a concurrent read of the same key")
+	fb, fbok := vb.Get([]byte{7})
+	t.Assert(fbok != delB && (delB || bytes.Equal(fb, []byte{wb})), "a completed write / delete is not undone by a concurrent read of the same key")
 	t.Assert(okA && bytes.Equal(gotA, []byte{wa}), "a view reads back its own write while another view is used concurrently")
 	t.Assert(okB != delB && (delB || bytes.Equal(gotB, []byte{wb})), "a view reads back its own write / delete while another view is used concurrently")
 	t.Assert(root.RestoreSnapshot(id) == nil, "RestoreSnapshot succeeds")
